@@ -25,6 +25,7 @@ func init() {
 			{ID: "C13.3", Desc: "no stale-if-error against must-revalidate / no-cache", Run: ruleC13_3, MinSites: 3},
 			{ID: "C13.4", Desc: "strict window comparison", Run: ruleC13_4, MinSites: 1},
 			{ID: "C13.5", Desc: "stale-if-error return is marked STALE with Age", Run: ruleC13_5, MinSites: 1},
+			{ID: "C13.9", Desc: "every outcome of the validation request (error included) is handed to the validation handler", Run: ruleC13_9, MinSites: 1},
 			{ID: "C13.8", Desc: "the Age emitted on the stale-if-error return includes the time since the age was computed (the failed validation attempt)", Run: func(c *Ctx) { ruleAgeEmission(c, "C13.8") }, MinSites: 1},
 			{ID: "C13.7", Desc: "the window sum (lifetime + stale-if-error) and the age sum saturate", Run: func(c *Ctx) { ruleDurationSums(c, "C13.7") }, MinSites: 2},
 			{ID: "C13.6", Desc: "otherwise the failure is returned", Run: ruleC13_6, MinSites: 2},
@@ -382,6 +383,11 @@ func leavesLoopFromBody(b *ssa.BasicBlock) bool {
 			return false
 		}
 		seen[x] = true
+		// the block a loop falls into when its iteration ends (go/ssa names it for.done / range*.done) is after the loop,
+		// also when the loop was rotated and the test sits in the latch
+		if strings.HasSuffix(x.Comment, ".done") && (strings.HasPrefix(x.Comment, "for") || strings.HasPrefix(x.Comment, "range")) {
+			return false
+		}
 		for _, p := range x.Preds {
 			if blockInCycle(p) {
 				// p is a body block when another block of the same loop dominates it (the head)
@@ -399,4 +405,92 @@ func leavesLoopFromBody(b *ssa.BasicBlock) bool {
 		return false
 	}
 	return up(b)
+}
+
+// ruleC13_9: stale-if-error is decided in the validation handler. On the foreground path, once the validation request has
+// been sent, no return may be reached before the handler was called with its outcome - whatever kind of error the
+// origin call ended with (a deadline or cancellation included).
+func ruleC13_9(c *Ctx) {
+	if !c.Need("C13.9", "validationHandler") {
+		return
+	}
+	desc := "after the validation request, every return of the foreground path has passed the validation handler"
+	n := 0
+	for fn := range c.A.ReachFg {
+		if c.A.roleOf[fn] == "validationHandler" {
+			continue
+		}
+		instrsOf(fn, func(in ssa.Instruction) {
+			if !c.An.CallsRole(in, "validationHandler") {
+				return
+			}
+			_, args := recvAndArgs(callOf(in))
+			// the origin call whose response is handed to the handler
+			var origin ssa.Instruction
+			for _, a := range args {
+				if !isHTTPResponsePtr(a.Type()) {
+					continue
+				}
+				c.P.TraceBack(a, TraceOpts{NoParams: true, NoHeapFields: true}, func(v ssa.Value, _ []int) bool {
+					if ex, ok := v.(*ssa.Extract); ok {
+						if call, ok := ex.Tuple.(*ssa.Call); ok && call.Parent() == fn {
+							origin = call
+							return false
+						}
+					}
+					return true
+				})
+			}
+			if origin == nil {
+				return
+			}
+			n++
+			// forward from the origin call to a return that avoids the handler call
+			bad := ""
+			seen := map[*ssa.BasicBlock]bool{}
+			var walk func(b *ssa.BasicBlock, from int)
+			walk = func(b *ssa.BasicBlock, from int) {
+				if bad != "" {
+					return
+				}
+				if from == 0 {
+					if seen[b] {
+						return
+					}
+					seen[b] = true
+				}
+				for _, i2 := range b.Instrs[from:] {
+					if i2 == in {
+						return
+					}
+					if _, isRet := i2.(*ssa.Return); isRet {
+						bad = c.P.InstrPos(i2)
+						return
+					}
+					if _, isPanic := i2.(*ssa.Panic); isPanic {
+						return
+					}
+				}
+				for _, s := range b.Succs {
+					walk(s, 0)
+				}
+			}
+			idx := 0
+			for i, i2 := range origin.Block().Instrs {
+				if i2 == origin {
+					idx = i + 1
+				}
+			}
+			walk(origin.Block(), idx)
+			where := c.P.ShortName(fn) + "@" + c.P.InstrPos(in)
+			if bad != "" {
+				c.Fail("C13.9", "outcome-reaches-handler fn="+c.P.ShortName(fn), desc, where+": the return at "+bad+" is reachable after the origin call without the handler; that failure (e.g. a deadline that expired while the origin hung) is returned although the stale-if-error window is open")
+			} else {
+				c.Pass("C13.9", "outcome-reaches-handler fn="+c.P.ShortName(fn), desc, where)
+			}
+		})
+	}
+	if n == 0 {
+		c.Undecided("C13.9", "outcome-reaches-handler", desc, "no foreground call of the validation handler fed by an origin call in the same function")
+	}
 }
